@@ -1,7 +1,7 @@
 SPECIFICATION Spec
 CONSTANTS
   Pats = {"name:b.lua", "dir:vendor", "ext:luau", "anch:a.lua", "!name:v.lua", "dir:deep", "name:v.lua"}
-  ArgSets = {"dot", "src", "a", "v", "w", "notes", "hidden", "dot+a", "a+a", "src+b", "src+vendor"}
+  ArgSets = {"dot", "src", "a", "v", "w", "notes", "hidden", "dot+a", "a+a", "src+b", "src+vendor", "src+notes", "notes+src", "dot+notes", "notes+dot"}
   MaxPats = 2
   FlagSets = {"none", "respect", "hidden"}
 INVARIANT Emit
